@@ -234,3 +234,38 @@ package app
 //@   requires !held(p.stateMtx) && !held(p.timeMutex)
 //@   ensures result == p.procState.Status
 //@   assigns p.procState.SystemTime, p.procState.Age, p.procState.Name, p.procState.Mem, p.procState.CPU, p.procState.IsRunning, p.procState.IsElevated, p.procState.PasswordProvided
+
+// ---------- launching (C02, C03, C09, C11, C17) ----------
+//@ define attachedIo(p *Process) bool = p.isMain || (p.procConf.IsElevated && !p.isTuiEnabled)
+
+//@ func (p *Process) getProcessStarter$1
+//@   ensures one-start: starts() == old(starts()) + 1
+//@   ensures env: cmdEnv(p.command) == lastProcEnv() && cmdDir(p.command) == p.procConf.WorkingDir
+//@   ensures pgrp: !attachedIo(p) ==> pgrpSet(p.command)
+//@   ensures streams: !attachedIo(p) ==> p.stdOutDone != nil && (!p.procConf.IsTty ==> p.stdErrDone != nil)
+//@   assigns p.command, p.stdOutDone, p.stdErrDone, p.stdin, starts(), cmdEnv[*], cmdDir[*], pgrpSet[*], lastProcEnv(), spawned[*]
+
+//@ func (p *Process) getProcessStarter
+//@   ensures isclosure(result, "(*app.Process).getProcessStarter$1") && captured(result, "(*app.Process).getProcessStarter$1", "p") == p
+//@   assigns nothing
+
+//@ func (p *Process) setStateAndRun
+//@   requires !held(p.stateMtx) && !held(p.confMtx)
+//@   requires starter: isclosure(runnable, "(*app.Process).getProcessStarter$1") && captured(runnable, "(*app.Process).getProcessStarter$1", "p") == p
+//@   param runnable as (*app.Process).getProcessStarter$1
+//@   ensures launched: starts() == old(starts()) + 1
+//@   ensures status: p.procState.Status == state
+//@   ensures forget: (state == "Restarting" || state == "Launching" || state == "Terminating") ==> p.procState.Health == "-"
+//@   ensures keepexit: state != "Skipped" ==> p.procState.ExitCode == old(p.procState.ExitCode)
+//@   ensures env: cmdEnv(p.command) == lastProcEnv() && cmdDir(p.command) == p.procConf.WorkingDir
+//@   ensures streams: !attachedIo(p) ==> p.stdOutDone != nil && (!p.procConf.IsTty ==> p.stdErrDone != nil)
+//@   ensures !held(p.stateMtx) && !held(p.confMtx)
+//@   assigns p.procState.Status, p.procState.ExitCode, p.procState.Health, p.command, p.stdOutDone, p.stdErrDone, p.stdin, starts(), cmdEnv[*], cmdDir[*], pgrpSet[*], lastProcEnv(), spawned[*]
+
+//@ func (p *Process) waitForStdOutErr
+//@   param cancel as cancelfunc
+//@   assigns p.stdOutDone, p.stdErrDone, slept(), ctxCount(), lastTimeout()
+
+//@ func (p *Process) waitForDaemonCompletion
+//@   assigns slept()
+//@   loop 1 invariant true
